@@ -70,6 +70,12 @@ type c16cfg struct {
 	DoErr   bool `json:"doerr"`   // the program raises an error inside h
 	HoldTop bool `json:"holdtop"` // the program blocks in hold() on the top level
 	HoldIn  bool `json:"holdin"`  // the program blocks in hold() inside g
+	// Val (c16host.go): an ECAL expression whose value is hostile to JSON encoding; the threads then
+	// run c16hostProg which holds that value in the global scope, as argument and local variable of
+	// the frames of the call stack and in the environment of the raised error
+	Val string `json:"val,omitempty"`
+	// ErrData: the hostile value also is the data (third argument) of the raised error
+	ErrData bool `json:"errdata,omitempty"`
 }
 
 // c16desc is the replayable description of one case: the last element of Script is the line
@@ -142,7 +148,7 @@ func c16newScn(cfg c16cfg) *c16scn {
 
 // start runs the program in a new thread (parsed here: concurrent parsing is C13's topic).
 func (sc *c16scn) start() error {
-	ast, err := parser.ParseWithRuntime("src", c16prog, sc.erp)
+	ast, err := parser.ParseWithRuntime("src", c16program(sc.cfg), sc.erp)
 	if err != nil {
 		return err
 	}
@@ -197,7 +203,7 @@ func (sc *c16scn) status() (*c16state, string) {
 	}
 	b, err := json.Marshal(r.Val)
 	if err != nil {
-		return nil, "result is not JSON-encodable: " + err.Error()
+		return nil, c16notEncodable + c16blameText(r.Val) + err.Error()
 	}
 	var st struct {
 		Breakonstart bool            `json:"breakonstart"`
@@ -484,7 +490,9 @@ func c16run(c *Ctx, cfg c16cfg, script []string, from int) {
 			if msg == "unsettled" {
 				// a thread neither suspended nor finished in time (C15's lost wake-up): not this property
 				c.Dist["scenario_abandoned_unsettled"]++
-			} else if i >= from {
+			} else if i >= from || c16statusKey(msg) != "status-after" {
+				// (a status result that cannot be encoded is reported for the set-up part of a script
+				// as well: the state was reached by thread events, status is the command under test)
 				c.Violate(c16statusKey(msg), "a \"status\" command after the line "+msg, c16desc{Cfg: cfg, Script: script[:i+1]})
 				sc.dead = strings.HasPrefix(msg, "did not return")
 			}
@@ -519,7 +527,7 @@ func c16line(c *Ctx, sc *c16scn, pre *c16state, line string, desc c16desc, recor
 		obs = 1
 	} else if _, err := json.Marshal(r.Val); err != nil {
 		if record {
-			c.Violate("not-json-encodable", "the result cannot be encoded as JSON: "+err.Error(), desc)
+			c.Violate(c16encodeKey(r.Val), "the result cannot be encoded as JSON: "+c16blameText(r.Val)+err.Error(), desc)
 			c.Count(key, true, desc)
 		}
 		return nil, true
@@ -578,7 +586,10 @@ func c16line(c *Ctx, sc *c16scn, pre *c16state, line string, desc c16desc, recor
 }
 
 func c16statusKey(msg string) string {
-	if strings.HasPrefix(msg, "result is not JSON-encodable") {
+	if strings.HasPrefix(msg, c16notEncodable) {
+		if strings.HasPrefix(msg, c16notEncodable+c16errDataMark) {
+			return c16errDataKey
+		}
 		return "not-json-encodable"
 	}
 	return "status-after"
@@ -596,7 +607,11 @@ func c16panicKey(msg string) string {
 }
 
 func (sc *c16scn) stateKey(st *c16state) string {
-	return fmt.Sprintf("%v|%v|%v|%v", sc.cfg.Global, sc.started, st.Threads, len(st.Bps))
+	k := fmt.Sprintf("%v|%v|%v|%v", sc.cfg.Global, sc.started, st.Threads, len(st.Bps))
+	if sc.cfg.Val != "" {
+		k += fmt.Sprintf("|val %s|%v", sc.cfg.Val, sc.cfg.ErrData)
+	}
+	return k
 }
 
 // ---- input universes ------------------------------------------------------------------------
@@ -783,7 +798,7 @@ func c16randLine(c *Ctx, exprs, pool []string) string {
 }
 
 func runC16(c *Ctx) error {
-	c.Rule = "a real debugger (NewECALDebugger on a runtime provider; fixed program run in goroutines) is driven into 12 set-up states {nothing executed, suspended at top level, suspended inside nested calls, one of each, running, running with interrogation state, finished, finished while marked running, suspended on an error, break on start; with/without global scope}; in each, every command word (10 commands + 3 unknown) x 0..1 arguments over the whole argument pool (thread ids valid/unknown/negative/huge/non-numeric, source:line well-/malformed, continue types, names, expressions, booleans, garbage), targeted 2..4 argument lines; then seeded random scenarios (random configuration, interleaved thread starts / releases / command lines with 0..4 arguments); every line is compared with the model on result-vs-error and the break points afterwards; non-trivial = non-empty line; distinct by (measured state, line)"
+	c.Rule = "a real debugger (NewECALDebugger on a runtime provider; fixed program run in goroutines) is driven into 12 set-up states {nothing executed, suspended at top level, suspended inside nested calls, one of each, running, running with interrogation state, finished, finished while marked running, suspended on an error, break on start; with/without global scope}; in each, every command word (10 commands + 3 unknown) x 0..1 arguments over the whole argument pool (thread ids valid/unknown/negative/huge/non-numeric, source:line well-/malformed, continue types, names, expressions, booleans, garbage), targeted 2..4 argument lines; the set-up states in which code ran once more with a program that holds a value hostile to JSON encoding (non-finite numbers, nested lists/maps with keys of every kind holding them, function values, strings with control characters / invalid UTF-8; fixed pool + seeded generator) in the global scope, in the arguments and locals of the call-stack frames and in the environment / data of the raised error, under status / lockstate / describe / extract / inject of further such values / stepping with describe after every step; then seeded random scenarios (random configuration, interleaved thread starts / releases / command lines with 0..4 arguments); every line is compared with the model on result-vs-error and the break points afterwards; non-trivial = non-empty line; distinct by (measured state, line)"
 	c.BeginCases(c16preamble, "case", 1000)
 
 	if c.Replay != "" {
@@ -834,6 +849,9 @@ func runC16(c *Ctx) error {
 		c16run(c, d.Cfg, d.Script, 0)
 	}
 	c.Extra["corpus_scripts"] = len(corpus)
+
+	// values hostile to JSON encoding in the scopes, call-stack frames and errors of the threads
+	c16hostile(c)
 
 	// sweep: every set-up state x lines
 	lines := c16sweepLines(c, exprs)
